@@ -132,6 +132,11 @@ func runCheck(prop, repo, verif, tier, work string, tmo int, verbose bool, updat
 			trusted["trusted contract (assumed, body not verified): "+strings.TrimPrefix(k, modPath+"/")] = true
 			continue
 		}
+		if con.Opts["tier"] == "thorough" && tier != "thorough" {
+			// too expensive for the per-change tier: verified in the thorough tier only, not counted here
+			notes["not verified in the quick tier (thorough only): "+strings.TrimPrefix(k, modPath+"/")] = true
+			continue
+		}
 		rep := verifyOne(prog, cs, con, filepath.Join(work, sanitize(k)), tmo, 16, verbose)
 		funcs = append(funcs, strings.TrimPrefix(k, modPath+"/"))
 		for _, n := range rep.Notes {
